@@ -217,7 +217,7 @@ def gen_point_spec(rng, mode, allow_now=True):
     r = rng.random()
     spec = {"kind": "point"}
     if allow_now and r < 0.08:
-        spec["src"] = rng.choice(["now", "noarg"])
+        spec["src"] = rng.choice(["now", "noarg", "ref_none"])
         spec["offsets"] = [gen_offset(rng, "hms", False) for _ in range(
             rng.choice([0, 1, 2]))]
         return spec
@@ -321,12 +321,14 @@ def gen_invocation(rng, world_state):
             env["ref"] = spec["text"]
         elif src == "now":
             items = ["now"]
+        elif src == "ref_none":
+            items = ["ref"]     # no --ref, no ISODATETIMEREF: the current time
         if items and items[0].startswith("-") and items != ["-"]:
             # a negative expanded year as an item: recorded separately
             spec["neg_year_item"] = True
         step["spec"] = spec
         step["argv"] = assemble(rng, items, groups)
-        if src in ("now", "noarg") or (
+        if src in ("now", "noarg", "ref_none") or (
                 spec.get("written") and spec["written"]["off"] is None):
             if rng.random() < 0.3:
                 step["inop"] = [[rng.randint(1, 8), gen_action(rng, 3)]]
@@ -596,7 +598,7 @@ class Sim(object):
             return None
         total = sum(o["us"] for o in offsets)
         pf = spec.get("pf")
-        if spec["src"] in ("now", "noarg"):
+        if spec["src"] in ("now", "noarg", "ref_none"):
             outs = set()
             for val in served_times:
                 t_us = int(round(val * 1e6))
@@ -790,7 +792,7 @@ class Sim(object):
         if spec.get("written") and spec["written"]["off"] is None and (
                 not spec.get("utc")):
             self.count("probe.zoneless_local")
-        if spec["src"] in ("now", "noarg") and self.facade.fired:
+        if spec["src"] in ("now", "noarg", "ref_none") and self.facade.fired:
             self.count("probe.now_across_transition")
         want = self.expect_point_texts(spec, mode, before, served)
         text = out[:-1] if out.endswith("\n") else out
@@ -807,7 +809,7 @@ class Sim(object):
                     got=[status[:200], out], want_any_of=sorted(want),
                     neg_year_item=bool(spec.get("neg_year_item")))
                 return
-        if spec["src"] in ("now", "noarg"):
+        if spec["src"] in ("now", "noarg", "ref_none"):
             return
         # differential: the library composed directly
         try:
